@@ -140,6 +140,9 @@ def handle (op : String) (j : Json) : Except String Json := do
   | "format" =>
     -- `format(i, "0{n}b")` as a tuple of digits
     pure (natsToJson (formatBin (← natOfJson (← field j "i")) (← natOfJson (← field j "n"))))
+  | "outcome" =>
+    -- the tuple of basis state `i` of an `n`-qubit register
+    pure (natsToJson (outcomeTuple (← natOfJson (← field j "i")) (← natOfJson (← field j "n"))))
   | "segments" =>
     let flags ← listOfJson boolOfJson (← field j "flags")
     pure (Json.arr ((segKeys flags).map Json.bool).toArray)
